@@ -1,11 +1,12 @@
 (* C13 - An aborted session still leaves a well-formed log of the completed boards.
    Only statements, each closed by [exact]; proofs are in the files imported below. *)
-From BE Require Import Model.Session Model.SessionTie Spec.SessionSpec Proofs.Kahn Proofs.Session Proofs.SessionExamples Model.Conform Proofs.SessionConform Proofs.SessionPassOut Proofs.Wire Model.Json Gen.JsonFraming Proofs.C13Cor Proofs.SessionAbort.
+From BE Require Import Model.Session Model.SessionTie Spec.SessionSpec Proofs.Kahn Proofs.Session Proofs.SessionExamples Model.Conform Proofs.SessionConform Proofs.SessionPassOut Proofs.Wire Model.Json Gen.JsonFraming Proofs.C13Cor Proofs.SessionAbort Proofs.SessionAdmission Proofs.SessionArrivals Proofs.SessionAbortArrivals.
 From BE Require Import Gen.Skeleton Proofs.SkeletonPin.
 From Coq Require Import ZArith.
 Local Open Scope nat_scope.
 Local Open Scope list_scope.
-(* FULL STATEMENT, PROVED (Proofs/SessionAbort.v) for sessions whose clients connect in the order N, E, S, W: if the clients
+(* FULL STATEMENT, PROVED (Proofs/SessionAbort.v for clients connecting in the order N, E, S, W; Proofs/SessionAbortArrivals.v for EVERY
+   request list that fills the table, by the network embedding of Proofs/KahnEmbed.v): if the seated clients
    conform on the first a boards and board a+1 goes wrong at ANY position - a call text that does not parse, a call that parses
    but is illegal, a card text that does not parse, a card the table refuses - by whichever seat is on turn, then some schedule
    makes the main thread raise, no schedule can avoid it, every schedule is bounded, and whenever the main thread has ended (or
@@ -112,6 +113,74 @@ Theorem C13_abandoned_session_bounded :
     forall l' s', srun l' (init_state (conf_session boards ns ew scripts)) = Some s' -> length l' <= bound /\ (sfinal s' -> s' = fin).
 Proof. exact abandoned_session_bounded. Qed.
 Print Assumptions C13_abandoned_session_bounded.
+
+(* the same for EVERY request list that fills the table (any order, refusals in between, late requests) *)
+Theorem C13_abandoned_session_any_arrivals :
+  forall (x : session) a bd,
+  let reqs := s_arrivals x in
+  let n := nconn x in
+  let T := seat_requests reqs empty_table in
+  s_interrupt x = None -> wf_requests reqs -> all_seated T = true ->
+  (forall p, length (seated_scripts x p) = length (s_boards x)) ->
+  nth_error (s_boards x) a = Some bd ->
+  forallb (fun '(i, b) => conform_board b (fun p => nth_script (seated_scripts x p) i))
+          (combine (seq 0 a) (firstn a (s_boards x))) = true ->
+  board_goes_wrong bd (fun p => nth_script (seated_scripts x p) a) ->
+  exists recs, map Some recs = recs_from (names_of T) (seated_scripts x) 0 (firstn a (s_boards x)) /\
+    (* some schedule makes the main thread raise; the requests turned away or too late are as the seating phase left them *)
+    (exists l f, srun l (init_state x) = Some f /\ pr f 0 = Some Fail /\
+                 log_events n f = LOpen :: map LRec recs ++ [LClose] /\
+                 (forall j r, nth_error reqs j = Some r ->
+                    (forall e, j < looked_at reqs empty_table ->
+                               admission_error (table_before reqs j) (a_team r) (a_seat r) (a_version r) = Some e ->
+                               loc n f j = turned_view r e) /\
+                    (looked_at reqs empty_table <= j -> loc n f j = waiting_view n (length (s_boards x)) j r (script_of x j)))) /\
+    (* no schedule can avoid it *)
+    (forall l' s', srun l' (init_state x) = Some s' ->
+       exists m' f, srun m' s' = Some f /\ pr f 0 = Some Fail /\ log_events n f = LOpen :: map LRec recs ++ [LClose]) /\
+    (* whenever the main thread has ended, or nothing can move, it has raised and the file is complete, holds recs and parses to them *)
+    (forall l' s', srun l' (init_state x) = Some s' -> main_ended s' \/ sfinal s' ->
+       pr s' 0 = Some Fail /\ log_events n s' = LOpen :: map LRec recs ++ [LClose] /\
+       exists ts, written_tokens json_framing tag_logs (map record_json recs) = Some ts /\
+                  parse_doc ts = Some (JObj [(tag_logs, JArr (map record_json recs))])).
+Proof. exact abandoned_session_any_arrivals. Qed.
+Print Assumptions C13_abandoned_session_any_arrivals.
+
+Theorem C13_abandoned_session_any_arrivals_bounded :
+  forall (x : session) a bd,
+  let reqs := s_arrivals x in
+  let n := nconn x in
+  let T := seat_requests reqs empty_table in
+  s_interrupt x = None -> wf_requests reqs -> all_seated T = true ->
+  (forall p, length (seated_scripts x p) = length (s_boards x)) ->
+  nth_error (s_boards x) a = Some bd ->
+  forallb (fun '(i, b) => conform_board b (fun p => nth_script (seated_scripts x p) i))
+          (combine (seq 0 a) (firstn a (s_boards x))) = true ->
+  board_goes_wrong bd (fun p => nth_script (seated_scripts x p) a) ->
+  exists recs fin bound, map Some recs = recs_from (names_of T) (seated_scripts x) 0 (firstn a (s_boards x)) /\
+    sfinal fin /\ pr fin 0 = Some Fail /\ log_events n fin = LOpen :: map LRec recs ++ [LClose] /\
+    (exists ts, written_tokens json_framing tag_logs (map record_json recs) = Some ts /\
+                parse_doc ts = Some (JObj [(tag_logs, JArr (map record_json recs))])) /\
+    forall l' s', srun l' (init_state x) = Some s' -> length l' <= bound /\ (sfinal s' -> s' = fin).
+Proof. exact abandoned_session_any_arrivals_bounded. Qed.
+Print Assumptions C13_abandoned_session_any_arrivals_bounded.
+
+Theorem C13_abandoned_and_interrupted_any_arrivals :
+  forall (x : session) a bd k,
+  let reqs := s_arrivals x in
+  let n := nconn x in
+  let T := seat_requests reqs empty_table in
+  s_interrupt x = None -> wf_requests reqs -> all_seated T = true ->
+  (forall p, length (seated_scripts x p) = length (s_boards x)) ->
+  nth_error (s_boards x) a = Some bd ->
+  forallb (fun '(i, b) => conform_board b (fun p => nth_script (seated_scripts x p) i))
+          (combine (seq 0 a) (firstn a (s_boards x))) = true ->
+  board_goes_wrong bd (fun p => nth_script (seated_scripts x p) a) ->
+  exists recs cnt fin bound, map Some recs = recs_from (names_of T) (seated_scripts x) 0 (firstn a (s_boards x)) /\
+    sfinal fin /\ main_ended fin /\ log_events n fin = LOpen :: map LRec (firstn cnt recs) ++ [LClose] /\
+    forall l' s', srun l' (init_state (with_interrupt x k)) = Some s' -> length l' <= bound /\ (sfinal s' -> s' = fin).
+Proof. exact abandoned_session_any_arrivals_interrupted. Qed.
+Print Assumptions C13_abandoned_and_interrupted_any_arrivals.
 
 (* operator interrupt at any step of the main thread: the file holds a prefix of the records *)
 Theorem C13_interrupted_session_log :
